@@ -2,6 +2,7 @@
 from __future__ import annotations
 
 import json
+import zlib
 
 from common import VERIF, Run, main_guard, parse_sx, sx
 import c02_lib as L
@@ -63,6 +64,9 @@ def flush(run, drv, reqs):
         run.count("named", spec[2] is not None)
         run.count("nested", any(e[0] == "node" for _, e in spec[3]))
         same = run.corr(stream, case, impl, model)
+        if zlib.crc32(line.encode()) % 5 == 0 and not (impl[0] == "err" and impl[1] == "timeout"):
+            # tensorclass container: the same call on a tensorclass holding the same tree must give the model's answer too
+            run.corr("tc:" + stream.split(":", 1)[-1], dict(case, container="tc"), L.run_impl_tc(spec, op, spelling, lock), model)
         ok = L.oracle(run, spec, td, op, impl, raw)
         if not same and ok:
             # model and code differ but the property's oracle accepts the code's answer: the model is off
@@ -253,7 +257,15 @@ def main():
     lz_shapes = [(2, 3), (2, 3, 1), (3, 2, 3), (2, 3, 1, 2), (2, 1, 3, 3)] + ([] if quick else [(2, 3, 3, 2), (1, 2, 3), (3, 1, 2, 2)])
     for shape in lz_shapes:
         n = len(shape)
-        spec = L.gen_tree(rng, shape, named=rng.random() < 0.6, nested=rng.random() < 0.5, allow_empty=False)
+        spec = L.gen_tree(rng, shape, named=True, nested=rng.random() < 0.5, allow_empty=False)      # (build_container drops the names in 40 % of the calls)
+        # EVERY batch dim named (a misplaced / dropped name must be visible whatever dims it concerns); nested nodes follow their parent
+        full = [nm if nm is not None else f"q{j}" for j, nm in enumerate(spec[2])]
+        def _fill(sp_, lead):
+            if sp_[0] != "node":
+                return sp_
+            nm_ = list(lead) + list((sp_[2] or [None] * len(sp_[1]))[len(lead):])
+            return ("node", sp_[1], nm_, [(k_, _fill(e_, nm_[:len(sp_[1])])) for k_, e_ in sp_[3]])
+        spec = _fill(spec, full)
         ops = [('transpose', a, b) for a, b in _it.product(range(-n, n), repeat=2)]
         perms = [p for p in _it.permutations(range(n))]
         if quick and len(perms) > 8:
@@ -298,10 +310,13 @@ def main():
             rep_cases.append(("repeat", spec, (tuple(reps),)))
             rep_lines.append(f"(c02.repeat ({' '.join(map(str, reps))}) {L.spec_sx(spec)})")
         else:
-            if rank == 0:
-                continue
-            d = rng.randint(-rank - 2, rank + 1) if wild else rng.randrange(-rank, rank)
+            # (a 0-d batch is unsqueezed first; `dim=None` flattens a batch of rank > 1 with reshape(-1): model `riPublic`)
             r = rng.choice([-1, 0, 1, 2]) if wild else rng.choice([0, 1, 2, 3])
+            if rng.random() < 0.25:
+                rep_cases.append(("repeat_interleave", spec, (r, None)))
+                rep_lines.append(f"(c02.ri_none {r} {L.spec_sx(spec)})")
+                continue
+            d = rng.randint(-rank - 2, rank + 1) if wild else (rng.randrange(-rank, rank) if rank else rng.choice([0, -1]))
             rep_cases.append(("repeat_interleave", spec, (r, d)))
             rep_lines.append(f"(c02.ri {r} {d} {L.spec_sx(spec)})")
     for (kind, spec, args), ans in zip(rep_cases, ask_chunked(drv, rep_lines)):
@@ -316,7 +331,9 @@ def main():
         run.case((kind, str(args), L.spec_sx(spec)))
         run.count("rep.outcome", impl[0] if impl[0] == "ok" else "err:" + impl[1])
         run.corr("td:" + kind, {"kind": kind, "args": list(args), "td": L.spec_sx(spec)}, impl, parse_sx(ans))
-        L.oracle_ext(run, kind, [spec], (args[0],) if kind == "repeat" else (args[0], args[1]))
+        if kind == "repeat" or len(spec[1]) > 0:
+            # (a 0-d batch: correspondence only — the torch proxy of the oracle has no batch dim to index)
+            L.oracle_ext(run, kind, [spec], (args[0],) if kind == "repeat" else (args[0], args[1]))
     # torch spec of repeat / repeat_interleave on plain provenance tensors
     import torch
     sp_cases, sp_lines = [], []
@@ -486,6 +503,18 @@ def main():
         run.case((kind, d, tuple(L.spec_sx(sp) for sp in specs)))
         run.count("stackcat.outcome", impl[0] if impl[0] == "ok" else "err:" + impl[1])
         run.corr("td:" + kind, {"kind": kind, "dim": d, "tds": [L.spec_sx(sp) for sp in specs]}, impl, model)
+        if impl[0] == "ok" and zlib.crc32(ans.encode()) % 3 == 0:
+            # the `out=` variant: a destination of the right structure, zeroed, must end up holding what the model says (and be what is returned)
+            try:
+                with L.time_limit(30.0):
+                    out = r.clone()
+                    out.apply_(lambda t_: t_.zero_())
+                    r2 = (_torch.stack if kind == "stack" else _torch.cat)(tds, d, out=out)
+                impl_out = ["ok", L.canon_sorted(out)] if (r2 is None or r2 is out) else ["err", "returned-another-object"]
+            except Exception as e:  # noqa: BLE001
+                L.slow_is_infra(e)
+                impl_out = ["err", L.err_class(e)]
+            run.corr("td:" + kind + "_out", {"kind": kind + "_out", "dim": d, "tds": [L.spec_sx(sp) for sp in specs]}, impl_out, model)
 
     # ---- 4. extended domain (oracle only): repeat / repeat_interleave / gather / masked_select / stack / cat (+ out=)
     for i in range(700 if quick else 8000):
@@ -499,6 +528,29 @@ def main():
                 L.oracle_ext(run, kind, specs, args, container="tc", rng=rng)
             elif r < 0.6:
                 L.oracle_ext(run, kind, specs, args, container="lazy", rng=rng)
+
+    # ---- 4b. the single-operand kinds on a lazy stack, ARGUMENT GRID: every stack dim x every dim (a defect in one (stack dim, dim)
+    # branch of _lazy.py:repeat_interleave / repeat / gather / masked_select must not depend on the seed)
+    import torch as _t
+    for shape in [(2, 3), (2, 1, 3), (3, 2, 2)] + ([] if quick else [(2, 3, 1, 2), (1, 2, 3)]):
+        n = len(shape)
+        spec = L.gen_tree(rng, shape, named=True, nested=rng.random() < 0.5, allow_empty=False)
+        for sd in range(n):
+            for d in range(n):
+                dd = d - n if (d + sd) % 2 else d
+                reps = tuple(2 if j == d else 1 for j in range(n))
+                ish = list(shape); ish[d] = 2
+                index = _t.tensor([(j * 7 + 1) % shape[d] for j in range(L.numel(ish))], dtype=_t.int64).reshape(ish)
+                cases4 = [("repeat_interleave", (2, dd)), ("repeat_interleave", (_t.tensor([((j + 1) % 3) for j in range(shape[d])], dtype=_t.int64), dd)),
+                          ("repeat", (reps,)), ("gather", (dd, index))]
+                for kind, args in cases4:
+                    run.case(("ext-lazy-grid", kind, shape, sd, d))
+                    L.oracle_ext(run, kind, [spec], args, container="lazy", rng=rng, stack_dim=sd, valid_call=True)
+            for k in range(1, n + 1):
+                mshape = shape[:k]
+                mask = _t.tensor([(j % 3) != 1 for j in range(L.numel(mshape))], dtype=_t.bool).reshape(mshape)
+                run.case(("ext-lazy-grid", "masked_select", shape, sd, k))
+                L.oracle_ext(run, "masked_select", [spec], (mask,), container="lazy", rng=rng, stack_dim=sd, valid_call=True)
 
     for s in [("permute", (1, 0)), ("flatten", 0, -1), ("splitlist", (1, 2), 1)]:
         spec = L.node((2, 3), ("a", None), [("x0", L.leaf((2, 3, 2))), ("n", L.node((2, 3, 2), None, [("y0", L.leaf((2, 3, 2)))]))])
